@@ -86,7 +86,10 @@ struct Probe : public LocalNetworkAdjustmentResults::Parser {
     if (tmp_i != unassigned) std::cout << (tmp_i - b); else std::cout << "-";
     std::cout << " ";
     if (tmp_e != unassigned) std::cout << (tmp_e - b); else std::cout << "-";
-    std::cout << " " << writes << "\n";
+    // what band(false) counts: orientations + non-zero adjustment indexes of the adjusted points read so far
+    long long unknowns = adj->orientations.size();
+    for (const auto& q : adj->adjusted_points) unknowns += (q.indx != 0) + (q.indy != 0) + (q.indz != 0);
+    std::cout << " " << writes << " " << unknowns << "\n";
   }
   static void s_start(void* u, const char* name, const char** atts) {
     Probe* p = static_cast<Probe*>(u);
